@@ -1,6 +1,8 @@
 // C04 harness: init / convert of every ring family of /repo's current headers, one case per line on stdin.
-//   init  <ring> <src> <p> <k> <x>   ->  <raw> <cI> <ci64> <cu64> <cd> <ci32> <cu32> <cf> <ci16> <cu16>   (element, then every convert form)
-//   rt    <ring> <src> <p> <k> <x>   ->  <raw> <raw of init(convert<Integer>(e))> <.. int64> <.. uint64> <.. double>
+//   init  <ring> <src> <p> <k> <x>   ->  <raw> <cI> <ci64> <cu64> <cd> <ci32> <cu32> <cf> <ci16> <cu16> <flags>   (element, every convert form,
+//                                        then isZero isOne isMOne areEqual(e,zero) areEqual(e,init(0)) as five 0/1 characters)
+//   rt    <ring> <src> <p> <k> <x>   ->  <raw> <raw of init(convert<Integer>(e))> <.. int64> <.. uint64> <.. double> <.. int32> <.. uint32> <.. float>
+//                                        <.. long long> <.. unsigned long long> <.. int16>
 //   const <ring> -    <p> <k> 0      ->  <zero> <one> <mOne> <cI(zero)> <cI(one)> <cI(mOne)> <raw of init(-1)>
 //   card  <ring> -    0   0   0      ->  <minCardinality> <maxCardinality>
 // <x> is a decimal integer; it is converted exactly to the source type (the generator only sends representable
@@ -116,6 +118,14 @@ ALLOW(PROBE_R, PROBE_S)
 template <class R> static void fill(typename R::Element& e) { memset(static_cast<void*>(&e), 0, sizeof e); }
 template <> void fill<Modular<Integer> >(Integer& e) { e = Integer(12345); }
 
+// init(convert<T>(e)) for one more intermediate type T ("-" when the ring has no such convert / init form)
+template <class R, class T> static typename std::enable_if<HasConv<R, T>::value && HasInit<R, T>::value && Allow<R, T>::value, std::string>::type
+back(const R& F, const typename R::Element& e) { T t; typename R::Element e2; fill<R>(e2); F.convert(t, e);
+    if (!finite_elt(t)) return "nonfinite";      // (an element beyond the range of a floating T: outside the claim, and Integer(inf) traps)
+    F.init(e2, t); return show(e2); }
+template <class R, class T> static typename std::enable_if<!(HasConv<R, T>::value && HasInit<R, T>::value && Allow<R, T>::value), std::string>::type
+back(const R&, const typename R::Element&) { return "-"; }
+
 template <class R, class S> static typename std::enable_if<HasInit<R, S>::value && Allow<R, S>::value, std::string>::type
 do_init(const R& F, const std::string& op, const mpz_t x) {
     typename R::Element e; fill<R>(e);
@@ -126,13 +136,19 @@ do_init(const R& F, const std::string& op, const mpz_t x) {
         o << show(e) << " " << conv<R, Integer>(F, e) << " " << conv<R, int64_t>(F, e) << " " << conv<R, uint64_t>(F, e)
           << " " << conv<R, double>(F, e) << " " << conv<R, int32_t>(F, e) << " " << conv<R, uint32_t>(F, e)
           << " " << conv<R, float>(F, e) << " " << conv<R, int16_t>(F, e) << " " << conv<R, uint16_t>(F, e);
+        // predicates on the element just produced: isZero isOne isMOne areEqual(e, zero) areEqual(e, init(0)) (one character each)
+        { typename R::Element z0; fill<R>(z0); F.init(z0, (int64_t)0);
+          o << " " << (F.isZero(e) ? '1' : '0') << (F.isOne(e) ? '1' : '0') << (F.isMOne(e) ? '1' : '0')
+            << (F.areEqual(e, F.zero) ? '1' : '0') << (F.areEqual(e, z0) ? '1' : '0'); }
     } else {   // rt: init(convert(e)) for each convert target
         o << show(e);
-        if (!finite_elt(e)) return o.str() + " nonfinite nonfinite nonfinite nonfinite";
+        if (!finite_elt(e)) return o.str() + " nonfinite nonfinite nonfinite nonfinite - - - - - -";
         { Integer t; typename R::Element e2; fill<R>(e2); F.convert(t, e); F.init(e2, t); o << " " << show(e2); }
         { int64_t t; typename R::Element e2; fill<R>(e2); F.convert(t, e); F.init(e2, t); o << " " << show(e2); }
         { uint64_t t; typename R::Element e2; fill<R>(e2); F.convert(t, e); F.init(e2, t); o << " " << show(e2); }
         { double t; typename R::Element e2; fill<R>(e2); F.convert(t, e); F.init(e2, t); o << " " << show(e2); }
+        o << " " << back<R, int32_t>(F, e) << " " << back<R, uint32_t>(F, e) << " " << back<R, float>(F, e)
+          << " " << back<R, long long>(F, e) << " " << back<R, unsigned long long>(F, e) << " " << back<R, int16_t>(F, e);
     }
     return o.str();
 }
